@@ -85,7 +85,12 @@ def C(name, **kw):
 def _init_pre(ctx, self, arg):
     return operand_ok(arg)
 def _init_result(ctx, self, arg):
-    self.fields['arg'] = ctx.fresh_int('arg')
+    v = val(arg)
+    if not is_sym(v) and isinstance(v, int) and not isinstance(v, bool):
+        # constructor applied to a literal: the stored value is the literal reduced (keeps shift counts such as uint64(op_size) concrete)
+        self.fields['arg'] = norm(cls_of(self), v)
+    else:
+        self.fields['arg'] = ctx.fresh_int('arg')
 def _init_post(ctx, res, self, arg):
     return And(is_fixed(res), res.arg == norm(cls_of(res), val(arg)), inv(res))
 C('moduint.__init__', pre=_init_pre, post=_init_post, result=_init_result, frame=['self.arg'])
